@@ -47,9 +47,53 @@ type world struct {
 	calls      int      // resolver invocations
 	curAbsList bool     // the resolver running now has an element of an abstract-typed list as its source
 	modes      map[string]int
-	// addresses whose resolver returned or panicked with a hand-built *gqlerrors.Error POINTER carrying foreign
-	// nodes and a foreign path (the executor's pass-through for its own re-thrown errors lets these through)
-	foreignPtr []string
+	// failures raised with a *gqlerrors.Error POINTER made by user code (hand-built with foreign nodes and path, or one of the
+	// shared sentinels): the executor's pass-through relays them as supplied; relay lists what must arrive, per occurrence
+	relay []relayT
+}
+
+type relayT struct {
+	addr string
+	msg  string
+	path []interface{}
+	locs [][2]int
+}
+
+// shared sentinel errors (process-wide, raised by many fields of many requests): without path and locations, with a path
+// only, with locations only. HEAD relays them unchanged on every occurrence and never modifies them.
+var sentinels []*gqlerrors.Error
+var sentinelSnapshot string
+
+func sentinelState() string {
+	out := ""
+	for _, e := range sentinels {
+		out += fmt.Sprintf("%q|%v|%v|%v|%d|%v|%q;", e.Message, e.Locations, e.Path, e.Positions, len(e.Nodes), e.Source == nil, e.Stack)
+	}
+	return out
+}
+
+func initSentinels() {
+	sentinels = []*gqlerrors.Error{
+		gqlerrors.NewError("sentinel without path and locations", nil, "", nil, nil, nil),
+		gqlerrors.NewErrorWithPath("sentinel with a path only", nil, "", nil, nil, []interface{}{"q", 1}, nil),
+		gqlerrors.NewError("sentinel with locations only", []ast.Node{foreignField}, "", nil, nil, nil),
+	}
+	sentinelSnapshot = sentinelState()
+}
+
+func raiseSentinel(w *world, a string, k uint64) (interface{}, error) {
+	e := sentinels[k%3]
+	r := relayT{addr: a, msg: e.Message, path: e.Path, locs: [][2]int{}}
+	for _, l := range e.Locations {
+		r.locs = append(r.locs, [2]int{l.Line, l.Column})
+	}
+	w.relay = append(w.relay, r)
+	if (k/3)%2 == 0 {
+		w.fail(a, "sentinel:returned:"+e.Message)
+		return nil, e
+	}
+	w.fail(a, "sentinel:panicked:"+e.Message)
+	panic(e)
 }
 
 var theWorld *world
@@ -115,6 +159,7 @@ func initForeign() error {
 	if err != nil {
 		return err
 	}
+	defer initSentinels()
 	foreignField = doc.Definitions[0].(*ast.OperationDefinition).SelectionSet.Selections[0].(*ast.Field).SelectionSet.Selections[0].(*ast.Field)
 	return nil
 }
@@ -172,12 +217,14 @@ func foreignFailure(w *world, a string, k uint64) (interface{}, error) {
 		}, nil
 	case 9:
 		w.fail(a, "foreign:hand-built-error-POINTER")
-		w.foreignPtr = append(w.foreignPtr, a)
+		w.relay = append(w.relay, relayT{a, "hand built " + a, foreignPath, [][2]int{{1, 21}}})
 		return nil, handBuilt(a)
-	default:
+	case 10:
 		w.fail(a, "foreign:panic-hand-built-error-POINTER")
-		w.foreignPtr = append(w.foreignPtr, a)
+		w.relay = append(w.relay, relayT{a, "hand built " + a, foreignPath, [][2]int{{1, 21}}})
 		panic(handBuilt(a))
+	default:
+		return raiseSentinel(w, a, k-11)
 	}
 }
 
@@ -190,7 +237,7 @@ func leafResolver(val interface{}) graphql.FieldResolveFn {
 			return val, nil
 		}
 		if (h/4)%2 == 1 {
-			return foreignFailure(w, a, (h/8)%11)
+			return foreignFailure(w, a, (h/8)%17)
 		}
 		switch (h / 8) % 5 {
 		case 0:
@@ -221,7 +268,9 @@ func nonNullLeafResolver(p graphql.ResolveParams) (interface{}, error) {
 	if h%5 != 0 {
 		return "nn", nil
 	}
-	switch (h / 5) % 4 {
+	switch (h / 5) % 5 {
+	case 4:
+		return raiseSentinel(w, a, h/25)
 	case 0:
 		w.fail(a, "nonnull-error")
 		return nil, errors.New("nn boom " + a)
